@@ -62,8 +62,7 @@ def check_membership(ctx, cfg, fmt, x, y, base, tag):
     ctx.violation(dict(base, kind="non_finite"), "non-finite output",
                   {"x": x[~np.isfinite(y)][:4].tolist(), "tag": tag})
     return k
-  dy = fixed.is_dyadic(fmt.alpha)
-  tol = 0.0 if dy else 4e-7 * np.maximum(1.0, np.abs(k))
+  tol = fixed.code_tolerance(fmt, x, y, k)
   off = np.abs(k - np.round(k)) > tol
   if off.any():
     i = int(np.argmax(off))
@@ -114,11 +113,13 @@ def run_case(cfg, ctx):
     ctx.sample({"cfg": cfg, "format": repr(fmt), "n_probes": int(x.size),
                 "first_probes": x[:6].tolist(), "first_outputs": y[:6].tolist()})
     vals = np.unique(y)
+    dyadic = fixed.is_dyadic(fmt.alpha)
+    n_distinct = vals.size if dyadic else np.unique(np.round(k)).size   # float noise of a non-dyadic scale is not a new code
     ctx.seen("bits_seen", int(fmt.bits))
-    if vals.size > 2 ** fmt.bits:
+    if n_distinct > 2 ** fmt.bits:
       ctx.violation(dict(base, kind="too_many_values"),
-                    "%d distinct outputs for a %d-bit format" % (vals.size, fmt.bits),
-                    {"n": int(vals.size)})
+                    "%d distinct outputs for a %d-bit format" % (n_distinct, fmt.bits),
+                    {"n": int(n_distinct)})
     reached = set(np.round(k).astype(np.int64).tolist())
     all_reached = reached >= set(range(fmt.lo, fmt.hi + 1))
     if all_reached:
@@ -132,11 +133,12 @@ def run_case(cfg, ctx):
     if okm and okM:
       ctx.count("minmax_checked")
       mn, mx = float(np.min(mn)), float(np.max(mx))
-      if float(y.min()) < mn - 1e-7 * abs(mn):
+      slack = 0.0 if dyadic else 8 * float(np.spacing(np.float32(max(abs(mn), abs(mx), float(np.abs(x).max())))))
+      if float(y.min()) < mn - 1e-7 * abs(mn) - slack:
         ctx.violation(dict(base, kind="min_not_enclosing"),
                       "min()=%g but output %g observed" % (mn, float(y.min())),
                       {"x": float(x[int(np.argmin(y))]), "min()": mn, "y": float(y.min())})
-      if float(y.max()) > mx + 1e-7 * abs(mx):
+      if float(y.max()) > mx + 1e-7 * abs(mx) + slack:
         ctx.violation(dict(base, kind="max_not_enclosing"),
                       "max()=%g but output %g observed" % (mx, float(y.max())),
                       {"x": float(x[int(np.argmax(y))]), "max()": mx, "y": float(y.max())})
@@ -152,7 +154,7 @@ def run_case(cfg, ctx):
           not kw.get("use_sigmoid")
     elif cls == "quantized_linear":
       has_range = True
-    if has_range and all_reached:
+    if has_range and all_reached and dyadic:
       okr, r = ctx.call(dict(base, op="range"), lambda: qenv.as_np(q.range()))
       if okr:
         ctx.count("range_checked")
@@ -176,7 +178,7 @@ def run_case(cfg, ctx):
         continue
       check_membership(ctx, cfg, fmt, t.ravel(), yt.ravel(), base, "random rank %d" % t.ndim)
       ctx.seen("ranks", t.ndim)
-      if okm and okM and (float(yt.min()) < mn - 1e-7 * abs(mn) or float(yt.max()) > mx + 1e-7 * abs(mx)):
+      if okm and okM and (float(yt.min()) < mn - 1e-7 * abs(mn) - slack or float(yt.max()) > mx + 1e-7 * abs(mx) + slack):
         ctx.violation(dict(base, kind="max_not_enclosing" if float(yt.max()) > mx else "min_not_enclosing"),
                       "min()/max() = %g/%g do not enclose %g..%g" % (mn, mx, float(yt.min()), float(yt.max())),
                       None)
